@@ -70,11 +70,20 @@ for _h in HARNESSES[4:]:  # one-operand operations
 # pstm_sub_s precondition |a| >= |b| needs used(b) <= used(a)
 HARNESSES[2]["cases"] = [c for c in HARNESSES[2]["cases"] if c["defs"]["VF_UB"] <= c["defs"]["VF_UA"]]
 HARNESSES += [MULH, SQRH]
-HARNESSES += [DIVH, MODH]
+MODW = dict(
+    name="mod_wrap", src="mod_wrap.c", checks=COMMON["MEMCHECKS"],
+    renames={"crypto/math/pstm.c": ["pstm_div"]},
+    functions=["pstm_mod", "pstm_add", "s_pstm_add", "pstm_sub_s", "pstm_exch", "pstm_init_size", "pstm_clear"], sources=["crypto/math/pstm.c"],
+    assumptions=["mod_wrap: pstm_div is a contract stub (arbitrary remainder with |r| < |b| and the sign of a) - the contract the div harness decides; a of 2 digits, b of 1..2 digits, all signs"],
+    undefined_ok="*", unwind=12, unwindset={"memmove:/for \\(i = 0/": 66, "realloc:/for \\(i = 0/": 66, "calloc:/for/": 66},
+    cases=[dict(name="signs", defs={})])
+# MODH (pstm_mod + a second pstm_div call per query) gave no verdict in 25 min even for 1x1 digits;
+# it is replaced by MODW: pstm_mod over the pstm_div contract that DIVH decides
+HARNESSES += [DIVH, MODW]
 
 PROPERTY = dict(level='model_checking',
-    claim='pstm add/sub/sub_s/cmp/mul_2/div_2/div_2d (quotient and remainder, every shift count, c aliasing a)/lshd/rshd/copy and pstm_div / pstm_mod (a = q*b + r, |r| < |b|, signs; quotients below 2^4) equal an independent ripple-carry reference for all 64-bit digit values, all signs, output aliasing; comba multiplication and squaring over the asm2c-translated x86-64 kernels equal schoolbook multiplication with the 64x64 product as an uninterpreted symmetric function.',
+    claim='pstm add/sub/sub_s/cmp/mul_2/div_2/div_2d (quotient and remainder, every shift count, c aliasing a)/lshd/rshd/copy and pstm_div (a = q*b + r, |r| < |b|, signs; quotients below 2^4) equal an independent ripple-carry reference for all 64-bit digit values, all signs, output aliasing; comba multiplication and squaring over the asm2c-translated x86-64 kernels equal schoolbook multiplication with the 64x64 product as an uninterpreted symmetric function; pstm_mod returns the residue with the sign of the modulus (or zero) for every sign combination, given an exact pstm_div (contract stub).',
     bounds='operands <= 3 digits (mul/sqr quick: <= 2x2 / 2; thorough 3x3 / 4), capacity 8 digits',
-    outside='pstm_div / pstm_mod beyond quotients of 4 bits and 2-digit operands (the per-bit loop costs ~100 s of solver time per quotient bit), Montgomery reduction, exptmod, invmod, larger operand sizes, the unrolled 16/32-digit variants, non-x86-64 kernels',
-    explanation='pstm add/sub/sub_s/cmp/mul_2/div_2/lshd/rshd/copy and pstm_div / pstm_mod (a = q*b + r, |r| < |b|, signs; quotients below 2^4) equal an independent ripple-carry reference for all 64-bit digit values, all signs, output aliasing; comba multiplication and squaring over the asm2c-translated x86-64 kernels equal schoolbook multiplication with the 64x64 product as an uninterpreted symmetric function.',
+    outside='pstm_div beyond quotients of 4 bits and 2-digit operands (the per-bit loop costs ~100 s of solver time per quotient bit), Montgomery reduction, exptmod, invmod, larger operand sizes, the unrolled 16/32-digit variants, non-x86-64 kernels',
+    explanation='pstm add/sub/sub_s/cmp/mul_2/div_2/lshd/rshd/copy and pstm_div (a = q*b + r, |r| < |b|, signs; quotients below 2^4) equal an independent ripple-carry reference for all 64-bit digit values, all signs, output aliasing; comba multiplication and squaring over the asm2c-translated x86-64 kernels equal schoolbook multiplication with the 64x64 product as an uninterpreted symmetric function; pstm_mod returns the residue with the sign of the modulus (or zero) for every sign combination, given an exact pstm_div (contract stub).',
     assumptions=[])
